@@ -92,10 +92,10 @@ func c10Gen(tier string, seed uint64, i int) any {
 			c.FailAt = (i / 10) % 64
 		}
 	}
-	if i%4 == 2 {
+	if r.Chance(1, 4) {
 		c.Undecodable = r.Pick(2, 5, 9, 40)
 	}
-	if i%6 == 1 {
+	if r.Chance(1, 6) {
 		c.Outbound = r.Pick(1, 3, 10)
 	}
 	if i%7 == 4 && c.FailAt == -1 { // the application shuts the stream down while frames are in flight
